@@ -459,7 +459,7 @@ var builtinRename = map[string]string{
 	"mapLen": "gh_mapLen", "allocated": "gh_allocated", "pureOf": "gh_pureOf",
 	"uf": "gh_uf", "ufb": "gh_ufb", "ufr": "gh_ufr", "seqOf": "gh_seqOf", "wrote": "gh_wrote", "div": "gh_div", "mod": "gh_mod",
 	"sameElems": "gh_sameElems", "abs": "gh_abs", "min": "gh_min", "max": "gh_max",
-	"count": "gh_count", "sum": "gh_sum", "upd": "gh_upd", "sameRef": "gh_sameRef", "arrOf": "gh_arrOf", "anyOf": "gh_anyOf", "unavail": "gh_unavail", "errIs": "gh_errIs", "mapEq": "gh_mapEq", "emptyMap": "gh_emptyMap",
+	"count": "gh_count", "sum": "gh_sum", "upd": "gh_upd", "kvHas": "gh_kvHas", "kvVal": "gh_kvVal", "kvWrites": "gh_kvWrites", "bytesId": "gh_bytesId", "keyOf": "gh_keyOf", "sameRef": "gh_sameRef", "arrOf": "gh_arrOf", "anyOf": "gh_anyOf", "unavail": "gh_unavail", "errIs": "gh_errIs", "mapEq": "gh_mapEq", "emptyMap": "gh_emptyMap",
 }
 
 var identCallRe = regexp.MustCompile(`\b([A-Za-z_]\w*)\s*\(`)
@@ -512,6 +512,11 @@ func gh_abs(a int) int                    { if a < 0 { return -a }; return a }
 func gh_min(a, b int) int                 { if a < b { return a }; return b }
 func gh_max(a, b int) int                 { if a < b { return b }; return a }
 func gh_wrote() int                       { return 0 }
+func gh_kvHas(k int) bool                 { return false }
+func gh_kvVal(k int) int                  { return 0 }
+func gh_kvWrites() int                    { return 0 }
+func gh_bytesId(b []byte) int             { return 0 }
+func gh_keyOf(kf any, args ...any) int    { return 0 }
 func gh_sameRef(a, b any) bool            { return false }
 func gh_arrOf[T any](x []T) *T            { return nil }
 func gh_anyOf[T any](x T) T              { return x }
